@@ -59,7 +59,7 @@ pub(crate) fn add(ctx: &mut TulispContext) {
 
     #[crate_fn_no_eval(add_func = "ctx")]
     fn and(ctx: &mut TulispContext, rest: TulispObject) -> Result<TulispObject, Error> {
-        let mut ret = TulispObject::nil();
+        let mut ret = TulispObject::t();
         for item in rest.base_iter() {
             let mut result = None;
             eval_basic(ctx, &item, &mut result)?;
